@@ -423,15 +423,29 @@ def compact(chars, keep):
 
 
 def replace_char(s, ch, repl):
-    """str::replace(char, &str) with a concrete replacement string"""
+    """str::replace(pattern, &str) with a concrete replacement string; pattern = one char or a set of chars"""
+    def hit(c):
+        return Or(*[ceq(c, x) for x in ch])
     if len(repl) == 1:
         r = bv(ord(repl), 8)
-        return BStr(s.n, [Ite(ceq(c, ch), r, c) for c in s.chars])
+        return BStr(s.n, [Ite(hit(c), r, c) for c in s.chars])
     parts = []
     for k, c in enumerate(s.chars):
         one = BStr(b2bv(Not(Eq(c, Z8)), LB), [c])
-        parts.append(ite(ceq(c, ch), BStr.lit(repl), one))
+        parts.append(ite(hit(c), BStr.lit(repl), one))
     return concat_all(parts).tight() if parts else s
+
+
+def to_ascii_lowercase(s):
+    out = []
+    for c in s.chars:
+        v = bvval(c)
+        if v is not None:
+            out.append(bv(v + 32, 8) if 65 <= v <= 90 else c)
+        else:
+            up = And(z3.UGE(c, bv(65, 8)), z3.ULE(c, bv(90, 8)))
+            out.append(Ite(up, Add(c, bv(32, 8)), c))
+    return BStr(s.n, out)
 
 
 def contains_char(s, ch):
